@@ -96,8 +96,10 @@ func (c *ChildExec) Cleanup() {
 // space limit and a per-operation allocation measurement.
 func runChild(role string, args []string) {
 	// 6 GiB of address space: a decoder that tries to allocate from a hostile count dies here
-	lim := syscall.Rlimit{Cur: 6 << 30, Max: 6 << 30}
-	syscall.Setrlimit(syscall.RLIMIT_AS, &lim)
+	if role == "codec" || role == "lib" {
+		lim := syscall.Rlimit{Cur: 6 << 30, Max: 6 << 30}
+		syscall.Setrlimit(syscall.RLIMIT_AS, &lim)
+	}
 	var ex Executor
 	switch role {
 	case "codec":
